@@ -150,6 +150,8 @@ def make_case(rng, double=False, nx=None, nt=None, span=None, n_baths=None, n_st
         s = x[i] if rng.random() < 0.4 else x[i] - 0.5 * (x[i] - x[i - 1])
         trans.append(float(s))
     trans.sort()
+    if len(trans) >= 2 and layout is None and rng.random() < 0.5:
+        trans.reverse()   # splices may be listed in any order; every result is labelled by the listed order
     # --- intensities
     gamma = 482.6 + r.normal(0, 2)
     TK = T + C273
